@@ -141,6 +141,17 @@ class Vertex(base.BaseObject):
         """
         return tuple(self._links)
 
+    def _qa_stats(self) -> list[int]:
+        """
+        Return this vertex's cache statistics record, creating it if needed.
+
+        **FOR INTERNAL USE ONLY!!**
+
+        Vertices that were not created through ``__init__`` in this process
+        (for example, un-pickled ones) have no record yet.
+        """
+        return self._CACHE_STATS.setdefault(self.uid, [0, 0, 0, 0])
+
     def _qa_neighbors_get(self, *args):
         """
         Check for and return quick-access neighbors cache data.
@@ -159,11 +170,11 @@ class Vertex(base.BaseObject):
             return self._QA_NB_INVALID
 
         if args in self.__qa_nb_cache:
-            self._CACHE_STATS[self.uid][0] += 1
+            self._qa_stats()[0] += 1
 
             return self.__qa_nb_cache[args]
 
-        self._CACHE_STATS[self.uid][1] += 1
+        self._qa_stats()[1] += 1
         return self._QA_NB_INVALID
 
     def _qa_neighbors_invalidate(self):
@@ -177,10 +188,12 @@ class Vertex(base.BaseObject):
         -- linked, unlinked, or anything else, to maintain cache integrity and
         prevent stale data.
         """
+        # drop the entries even while caching is disabled; otherwise they would
+        # be served, stale, as soon as it is switched on again
+        self.__qa_nb_cache = {}
         if not self.NEIGHBOR_CACHING:
             return
-        self._CACHE_STATS[self.uid][2] += 1
-        self.__qa_nb_cache = {}
+        self._qa_stats()[2] += 1
 
     def _qa_neighbors_insert(self, answer, *args):
         """
@@ -196,7 +209,7 @@ class Vertex(base.BaseObject):
         """
         if not self.NEIGHBOR_CACHING:
             return
-        self._CACHE_STATS[self.uid][3] += 1
+        self._qa_stats()[3] += 1
         self.__qa_nb_cache[args] = answer
 
     def add_to_link(self, link: Link):
